@@ -49,7 +49,7 @@ OP_TIMEOUT_S = float(os.environ.get("VERIF_OP_TIMEOUT_S", "20"))
 class OpTimeout(Exception):
     pass
 
-A_VALUES = [-2.0, 0.0, 1.0, 3.5]
+A_VALUES = [-2.0, 0.0, 1.0, 3.5, -1.0]
 L_VALUES = [0.5, 1.0, 2.0, 4.0]
 BASELINE = {"span": "linear", "evaluator": "default", "normalize": True, "aL": [[0.0, 1.0]] * 3, "num_procs": 1,
             "sched": 0, "chunk": "default", "faults": []}
@@ -91,7 +91,7 @@ def gen(prop, stream, tier, avoid):
         objs.append(spec)
     surf_idx = [i for i, s in enumerate(objs) if s["kind"] == "surface"]
     nops = kn.pick([3, 4, 5, 6, 8, 10, 14] + ([20, 28] if tier == "thorough" else []))
-    W = {"eval": 3, "eval_list": 1.5, "sample": 2, "delta": 1, "deriv": 3, "insert": 1.5, "remove": 0.8, "refine": 0.6, "remove_orig": 0.6,
+    W = {"eval": 3, "eval_list": 1.5, "sample": 2, "evalrange": 1.0, "delta": 1, "deriv": 3, "insert": 1.5, "remove": 0.8, "refine": 0.6, "remove_orig": 0.6,
          "split": 1, "decompose": 0.6, "tangent": 1, "normal": 0.8, "tessellate": 1.2, "voxelize": 1.2 if pooled else 0.3,
          "length": 0.5, "hodograph": 0.7, "find_ctrlpts": 0.7,
          "cadd": 2.5 if pooled and surf_idx else 0, "ctess": 3 if pooled and surf_idx else 0,
@@ -116,6 +116,17 @@ def gen(prop, stream, tier, avoid):
             op["ts"] = [[rng.randint(0, 32) / 32.0 for _ in range(3)] for _ in range(rng.randint(1, 4))]
         elif k == "sample":
             op["n"] = rng.randint(2, 7)
+        elif k == "evalrange":
+            # evaluate(start=..., stop=...) on part of the domain; bounds in quarters of the domain (so that they fall on "nice"
+            # values - knots, zero - of un-normalised ranges), per direction either given or left out
+            op["n"] = rng.randint(2, 6)
+            op["lo"], op["hi"] = [], []
+            for _ in range(3):
+                a_, b_ = sorted(rng.sample([0.0, 0.25, 0.5, 0.5, 0.75, 1.0], 2))
+                if a_ == b_:
+                    a_, b_ = 0.0, 0.5
+                op["lo"].append(a_ if rng.chance(0.7) else None)
+                op["hi"].append(b_ if rng.chance(0.7) else None)
         elif k == "delta":
             op["d"] = rng.pick([0.5, 0.25, 0.2, 0.125])
         elif k == "deriv":
@@ -171,7 +182,7 @@ def gen(prop, stream, tier, avoid):
         at = kn.randint(0, len(ops))
         ops = ops[:at] + motif + ops[at:]
     # the same query again later in the same process (memoised helpers meet their own earlier entries)
-    pure = [o_ for o_ in ops if o_["op"] in ("eval", "eval_list", "deriv", "tangent", "normal", "voxelize", "tessellate", "length",
+    pure = [o_ for o_ in ops if o_["op"] in ("eval", "eval_list", "evalrange", "deriv", "tangent", "normal", "voxelize", "tessellate", "length",
                                              "hodograph", "find_ctrlpts", "sample")]
     for _ in range(kn.pick([0, 0, 1, 1, 2])):
         if pure:
@@ -392,6 +403,18 @@ def execute_workload(script, cfg):
                 val = [list(x) for x in obj.evaluate_list([p[0] for p in ps] if nd == 1 else ps)]
             elif k == "sample":
                 obj.sample_size = op["n"]
+                val = [list(x) for x in obj.evalpts]
+            elif k == "evalrange":
+                obj.sample_size = op["n"]
+                kw = {}
+                for d in range(nd):
+                    sfx = "" if nd == 1 else "_" + shapes.SUFFIX[d]
+                    a_, L_ = aL[d]
+                    if op["lo"][d] is not None:
+                        kw["start" + sfx] = a_ + L_ * op["lo"][d]
+                    if op["hi"][d] is not None:
+                        kw["stop" + sfx] = a_ + L_ * op["hi"][d]
+                obj.evaluate(**kw)
                 val = [list(x) for x in obj.evalpts]
             elif k == "delta":
                 obj.delta = op["d"]
